@@ -29,6 +29,7 @@ type Ptr struct {
 	off   *Term // BV64 byte offset inside obj (full symbolic offset)
 	cbase int64 // when dims != nil: off == cbase + sum(idx_k*stride_k)
 	dims  []dim
+	safe  bool // the element addressed lies inside the object (shown by the Go bounds check already on the path)
 }
 
 type Slice struct {
